@@ -19,7 +19,16 @@ from typing import Any
 
 import yaml
 
-from octave_mcp.core.ast_nodes import Assignment, Block, Document, InlineMap, ListValue, LiteralZoneValue
+from octave_mcp.core.ast_nodes import (
+    Assignment,
+    Block,
+    Document,
+    HolographicValue,
+    InlineMap,
+    ListValue,
+    LiteralZoneValue,
+    Section,
+)
 from octave_mcp.core.gbnf_compiler import GBNFCompiler, compile_gbnf_from_meta
 from octave_mcp.core.parser import parse
 from octave_mcp.core.projector import project
@@ -27,6 +36,14 @@ from octave_mcp.core.repair_log import LiteralZoneRepairLog
 from octave_mcp.core.schema_extractor import extract_schema_from_document
 from octave_mcp.core.validator import _count_literal_zones
 from octave_mcp.mcp.base_tool import BaseTool, SchemaBuilder
+
+
+def _section_label(section: Section) -> str:
+    """Key under which a section marker appears in non-OCTAVE formats (its canonical header text)."""
+    label = f"\u00a7{section.section_id}::{section.key}"
+    if section.annotation:
+        label += f"[{section.annotation}]"
+    return label
 
 
 def _ast_to_dict(doc: Document) -> dict[str, Any]:
@@ -50,6 +67,8 @@ def _ast_to_dict(doc: Document) -> dict[str, Any]:
             result[section.key] = _convert_value(section.value)
         elif isinstance(section, Block):
             result[section.key] = _convert_block(section)
+        elif isinstance(section, Section):
+            result[_section_label(section)] = _convert_block(section)
 
     return result
 
@@ -76,11 +95,14 @@ def _convert_value(value: Any) -> Any:
         return [_convert_value(item) for item in value.items]
     elif isinstance(value, InlineMap):
         return {k: _convert_value(v) for k, v in value.pairs.items()}
+    elif isinstance(value, HolographicValue):
+        # Holographic patterns have no native JSON/YAML form: export their canonical text
+        return value.raw_pattern
     else:
         return value
 
 
-def _convert_block(block: Block) -> dict[str, Any]:
+def _convert_block(block: Block | Section) -> dict[str, Any]:
     """Convert Block AST node to dictionary.
 
     Args:
@@ -96,6 +118,8 @@ def _convert_block(block: Block) -> dict[str, Any]:
             result[child.key] = _convert_value(child.value)
         elif isinstance(child, Block):
             result[child.key] = _convert_block(child)
+        elif isinstance(child, Section):
+            result[_section_label(child)] = _convert_block(child)
 
     return result
 
@@ -128,6 +152,9 @@ def _format_markdown_value(value: Any) -> str:
         # Format inline map as key: value pairs
         pairs = [f"{k}: {_format_markdown_value(v)}" for k, v in value.pairs.items()]
         return ", ".join(pairs)
+    elif isinstance(value, HolographicValue):
+        # I3: canonical pattern text, never the dataclass repr
+        return value.raw_pattern
     else:
         # Regular values are stringified directly
         return str(value)
@@ -167,11 +194,15 @@ def _ast_to_markdown(doc: Document) -> str:
             lines.append(f"## {section.key}")
             lines.append("")
             _block_to_markdown(section, lines, level=3)
+        elif isinstance(section, Section):
+            lines.append(f"## {_section_label(section)}")
+            lines.append("")
+            _block_to_markdown(section, lines, level=3)
 
     return "\n".join(lines)
 
 
-def _block_to_markdown(block: Block, lines: list[str], level: int = 3) -> None:
+def _block_to_markdown(block: Block | Section, lines: list[str], level: int = 3) -> None:
     """Convert Block to Markdown recursively.
 
     Args:
@@ -185,6 +216,10 @@ def _block_to_markdown(block: Block, lines: list[str], level: int = 3) -> None:
             lines.append(f"- **{child.key}**: {_format_markdown_value(child.value)}")
         elif isinstance(child, Block):
             lines.append(f"{'#' * level} {child.key}")
+            lines.append("")
+            _block_to_markdown(child, lines, level + 1)
+        elif isinstance(child, Section):
+            lines.append(f"{'#' * level} {_section_label(child)}")
             lines.append("")
             _block_to_markdown(child, lines, level + 1)
 
